@@ -34,6 +34,7 @@ type ExtConn struct {
 	closeHandler func(code int, text string) error
 	Script       []PeerItem
 	closedCh     chan struct{}
+	wake         chan struct{}
 	Closes       int
 	Frames       [][2]interface{} // (type, payload)
 	CloseFrameOK bool
@@ -50,7 +51,7 @@ type ExtConn struct {
 }
 
 func NewExtConn() *ExtConn {
-	return &ExtConn{closedCh: make(chan struct{}), CloseFrameOK: true, Inside: map[string]int{}, MaxInside: map[string]int{}}
+	return &ExtConn{closedCh: make(chan struct{}), wake: make(chan struct{}, 1), CloseFrameOK: true, Inside: map[string]int{}, MaxInside: map[string]int{}}
 }
 
 func (c *ExtConn) enter(op string) {
@@ -97,11 +98,15 @@ func (c *ExtConn) ReadMessage() (int, []byte, error) {
 		c.mu.Unlock()
 		return 0, nil, c.closedErr()
 	}
-	if len(c.Script) == 0 {
+	for len(c.Script) == 0 {
 		c.mu.Unlock()
-		<-c.closedCh // the peer is silent: block until the connection is closed locally
-		c.ReadCanary++
-		return 0, nil, c.closedErr()
+		select {
+		case <-c.closedCh: // the peer is silent: block until the connection is closed locally
+			c.ReadCanary++
+			return 0, nil, c.closedErr()
+		case <-c.wake: // the harness appended to the script meanwhile
+		}
+		c.mu.Lock()
 	}
 	it := c.Script[0]
 	c.Script = c.Script[1:]
@@ -161,6 +166,14 @@ func (c *ExtConn) Close() error {
 	}
 	c.log("c")
 	return nil
+}
+
+// Wake lets a read that is blocked on an empty script look at the script again.
+func (c *ExtConn) Wake() {
+	select {
+	case c.wake <- struct{}{}:
+	default:
+	}
 }
 
 func (c *ExtConn) Lock()   { c.mu.Lock() }
